@@ -16,26 +16,48 @@ Fixpoint apply_dumps (p : list ltable) (ds : list (nat * ltable)) : list ltable 
 
 Definition is_err (o : outcome) : bool := match o with Err _ => true | _ => false end.
 
-Definition step_model_ok (p p' : list ltable) (s : stepobs) : bool :=
+(* a << b: the L1 concatenation (result length and slice bounds regenerated from __lshift__) from the dumped operands;
+   the family of the new table is read off the dump (its freshness is judged by the L0 check) *)
+Definition concat_model_ok (teq : table -> table -> bool) (p p' : list ltable) (ti t2i : nat) (out : outcome) : bool :=
+  match nth_error p ti, nth_error p t2i with
+  | Some a, Some b =>
+      match out, nth_error p' (List.length p) with
+      | OkNew, Some d => match concat_l a b (l_fam d) with
+                         | Ok r => teq (abs r) (abs d)
+                         | Raise _ => false
+                         end
+      | Err _, _ => match concat_l a b 0 with Raise _ => true | Ok _ => false end
+      | _, _ => false
+      end
+  | _, _ => true
+  end.
+
+Definition step_model_ok_with (teq : table -> table -> bool) (p p' : list ltable) (s : stepobs) : bool :=
+  match so_op s with
+  | OConcat ti t2i => concat_model_ok teq p p' ti t2i (so_out s)
+  | _ =>
   match lstep p (so_op s) with
   | LSkip => true
   | LErr => is_err (so_out s)
   | LNew t =>
       match so_out s, nth_error p' (List.length p) with
-      | OkNew, Some d => table_eqb (abs t) (abs d)
+      | OkNew, Some d => teq (abs t) (abs d)
       | _, _ => false
       end
   | LUpd i t =>
       match so_out s, nth_error p' i with
-      | OkUnit, Some d => table_eqb (abs t) (abs d)
+      | OkUnit, Some d => teq (abs t) (abs d)
       | _, _ => false
       end
   | LErrUpd i t =>
       match so_out s, nth_error p' i with
-      | Err _, Some d => table_eqb (abs t) (abs d)
+      | Err _, Some d => teq (abs t) (abs d)
       | _, _ => false
       end
+  end
   end.
+
+Definition step_model_ok := step_model_ok_with table_eqb.
 
 (* the L1 steps are judged while the history is inside the model: a step on which the L0 spec answers OutOfModel
    (e.g. a merge of same-named columns of different kinds) ends the judgement, as it does for the oracle *)
